@@ -385,13 +385,13 @@ func runC15(c *kit.Ctx) {
 			if ev := returnedError(r); ev != nil && !kit.IsNilConst(kit.Root(ev)) {
 				return
 			}
-			ap, ok := r.Results[0].(*ssa.Call)
+			ap, ok := kit.Res(r, 0).(*ssa.Call)
 			if !ok || kit.CalleeName(ap) != "builtin.append" {
 				c.Bad(fn, "append-result", r.Pos(), "the codec does not return append(dst, chunk...)", "")
 				return
 			}
 			dstP := paramOfType(fn, "[]byte", 1) // (src, dst []byte)
-			cv, isCv := r.Results[1].(*ssa.Convert)
+			cv, isCv := kit.Res(r, 1).(*ssa.Convert)
 			good := ap.Call.Args[0] == ssa.Value(dstP) && isCv && kit.LenOf(cv.X) != nil && kit.Same(kit.LenOf(cv.X), ap.Call.Args[1])
 			c.Check(good, fn, "append-and-length", r.Pos(), "returns append(dst, chunk...) and uint32(len(chunk)) of the same chunk", "the codec reports a length that is not the length of what it appended to dst")
 		})
